@@ -32,18 +32,7 @@ def equal_stamp_witness(clause, lines):
     return all(any(ts2 == ts for (ts2, _) in logged[:i]) for (i, ts, _) in missing)
 
 
-def null_record_witness(clause, lines):
-    """F-C12b: the node died in a ReplayLog over a file into which the record `4:null,` had been written."""
-    if clause != "no_crash":
-        return False
-    ops = _ops(lines)
-    if not any(l.rstrip().endswith("| DIED 11") and l.startswith(("probe", "replay")) for l in lines):
-        return False
-    damage = [o for o in ops if o[0] in ("probe", "setbytes")]
-    return bool(damage) and all("343a6e756c6c2c" in o[3] for o in damage)
-
-
-CLASSIFIERS = {"c12_equal_timestamps": equal_stamp_witness, "c12_null_record": null_record_witness}
+CLASSIFIERS = {"c12_equal_timestamps": equal_stamp_witness}
 
 
 class C12(StdCheck):
@@ -68,7 +57,7 @@ class C12(StdCheck):
                   "record is an oracle input (the bytes PersistMessage wrote are handed to the model, which checks the framing and "
                   "decodes by table); whether the peer's zone may see an object is read from the implementation (CanAccessObject is C13) "
                   "and cross-checked against the topology in the spec. The exactness theorem needs strictly increasing timestamps: "
-                  "with equal stamps the code loses events (F-C12a, known finding, kernel-checked counterexample).")
+                  "with equal stamps the code loses events (F-C12a, known finding, kernel-checked counterexample). A crash of the real code in any operation is reported by the harness as an observation (`<op> | DIED <signal>`) and fails the clause no_crash with the operation sequence as replay.")
     trusted_base = [
         "modelled, not verified: JSON encoding of a record (oracle bytes + table decode), Zone::CanAccessObject (oracle bits), "
         "Boost.Asio strands delivering posted sends in order, the file system (rename/unlink/append as the model says)",
@@ -78,7 +67,7 @@ class C12(StdCheck):
     ]
     assumptions = ["timestamps are non-negative µs integers, exact in binary64", "one endpoint per non-local zone",
                    "the virtual clock advances by >= 1 µs per relayed event except in the named equal-stamp case"]
-    rule = ("1 named equal-timestamp case; 1 named case with a `null` record; 2 (thorough 5) three-file logs cut at EVERY byte offset of every file followed by ReplayLog; "
+    rule = ("1 named equal-timestamp case; 1 named regression case with a `null` record in the first of two files (F-C12b, fixed); 2 (thorough 5) three-file logs cut at EVERY byte offset of every file followed by ReplayLog; "
             "1200 (thorough 6000) seeded random cases of 8..38 (..58) operations over relay (6 kinds of security object) / connect / "
             "disconnect / ReplayLog / rotate / timer / acknowledge / receive / stop / crash (with byte loss) / start / object removal / "
             "counter preset 49998..50000 / permanent and temporary damage with random bytes, 3 peers with log_duration from "
